@@ -106,7 +106,19 @@ def readout_record(ro) -> dict:
         ro.message_type
     except Exception as ex:  # noqa: BLE001
         err.append(type(ex).__name__)
-    return {"o": list(o), "valid": valid, "vraised": verr, "payload": list(payload or b""), "raised": err[0] if err else ""}
+    # the verdict must not depend on which other accessors were used before: touch them, then ask again
+    valid2 = valid
+    if hasattr(type(ro), "identification_line"):
+        for name in ("identification_line", "expected_checksum", "end_line", "data_lines"):
+            try:
+                getattr(ro, name)
+            except Exception:  # noqa: BLE001 (these accessors are not covered by C14)
+                pass
+        try:
+            valid2 = bool(ro.is_valid)
+        except Exception as ex:  # noqa: BLE001
+            valid2, verr = False, verr or type(ex).__name__
+    return {"o": list(o), "valid": valid, "valid2": valid2, "vraised": verr, "payload": list(payload or b""), "raised": err[0] if err else ""}
 
 
 def record_run(chunks: list[bytes], reader=None) -> dict:
@@ -141,8 +153,13 @@ def direct_trace(octets: bytes, origin: str) -> dict | None:
     except Exception:  # noqa: BLE001
         return None  # the constructor's documented refusal (no '/' or no '!'): not a readout
     rec = readout_record(ro)
+    recs = [rec]
+    if rec["valid2"] != rec["valid"]:          # a second report of the same readout that differs: judge both
+        r2 = dict(rec)
+        r2["valid"] = rec["valid2"]
+        recs.append(r2)
     return {"id": stable_id("p1d", octets.hex()), "canary": "", "origin": origin, "mode": "direct", "plan": [],
-            "runs": [{"calls": [{"chunk": [], "raised": "", "hunt": True, "readouts": [rec]}]}], "nodrift": True}
+            "runs": [{"calls": [{"chunk": [], "raised": "", "hunt": True, "readouts": recs}]}], "nodrift": True}
 
 
 def nreadouts(t) -> int:
@@ -242,10 +259,14 @@ def _mk_resync(args):
     rng = random.Random(seed)
     out = []
     for k in range(n):
-        kind = P1_NOISE[k % len(P1_NOISE)]
+        kind = P1_NOISE[(k + seed * 5) % len(P1_NOISE)]          # jobs start at different kinds so that a small tier still covers all
         plan = resync_plan(rng, kind, rng.randint(2, 6))
         data = plan_wire(plan)
         cuts = chunkings_p1(rng, data, plan, 3)
+        nl = len(item_bytes(plan[0]))
+        for sz in (rng.choice([1, 2, 5]) if len(data) - nl < 1500 else 23, rng.choice([37, 64, 97])):
+            rest = len(data) - nl
+            cuts.append([nl] + [sz] * (rest // sz) + ([rest % sz] if rest % sz else []))      # noise whole, suffix in small chunks
         cuts = [c for c in cuts if len(c) <= 3000]
         out.append(make_trace(data, cuts, mode="resync", plan=plan, origin="gen:resync:" + kind))
     return out
